@@ -272,18 +272,12 @@ theorem refines_writePandas {c : Cat} {ss : Session} (hc : ss.coherent c = true)
     cases h : ss.guard (r.needDb, r.needSchema) with
     | none => rfl
     | some e => simp [h] at hreg
-  have hok : (c.applyT (.insert v) (duckResolve c ss.path false r).1 (duckResolve c ss.path false r).2.1
-      (duckResolve c ss.path false r).2.2).1 = .ok := by
-    by_cases h : (c.applyT (.insert v) (duckResolve c ss.path false r).1 (duckResolve c ss.path false r).2.1
-      (duckResolve c ss.path false r).2.2).1 = .ok
-    · exact h
-    · simp [hgr, h] at hreg
   have hfb : fallsBack c ss.path r = false := by
     cases h : fallsBack c ss.path r
     · rfl
-    · simp [hgr, hok, h] at hreg
+    · simp [hgr, h] at hreg
   have ha := resolve_agree hc r false hgr (Or.inr hfb)
-  simp only [LocalRefines, exec, sexec, ha, hok, if_true, clear_none]
+  simp only [LocalRefines, exec, sexec, ha, clear_none]
   refine ⟨trivial, trivial, trivial, ?_, applyT_keeps _ _ _ _ _ _⟩
   exact coherent_keeps (applyT_keeps _ _ _ _ _ none) hc (by simp)
 
